@@ -418,8 +418,8 @@ public:
 			pvSetPrevBuffer(buffer, prevBuffer);
 			pvSetNextBuffer(buffer, nextBuffer);
 			if (prevBuffer != nullptr)
-				pvSetNextBuffer(prevBuffer, nextBuffer);
-			pvSetPrevBuffer(nextBuffer, prevBuffer);
+				pvSetNextBuffer(prevBuffer, buffer);
+			pvSetPrevBuffer(nextBuffer, buffer);
 		}
 		Byte* buffer = mFreeBufferHead;
 		while (true)
